@@ -19,6 +19,11 @@ Check (C03_sound_fragment_definition_targets : forall S D,
 Check (C03_sound : forall S D,
   schema_wf S = true -> check_operation_document S D = [] ->
   forall r, r <> R_single_subscription_root -> rule_ok_vis S D r = true).
+Check (C03_sound_sites : forall S D,
+  schema_wf S = true -> check_operation_document S D = [] ->
+  forall o fv, In o (doc_ops D) ->
+    Forall (site_good S D (op_vars o))
+           (flat_map (vsites_sel S (vis_enter fv S D []) (sp_root S (op_type o))) (selset_sels (op_sel o)))).
 Check (C03_sound_fields_exist : forall S D,
   schema_wf S = true -> check_operation_document S D = [] -> rule_ok_vis S D R_fields_exist = true).
 Check (C03_sound_leaf_vs_composite : forall S D,
@@ -64,6 +69,7 @@ Print Assumptions C03_sound_unique_vars.
 Print Assumptions C03_sound_vars_input_types.
 Print Assumptions C03_sound_fragment_definition_targets.
 Print Assumptions C03_sound.
+Print Assumptions C03_sound_sites.
 Print Assumptions C03_sound_fields_exist.
 Print Assumptions C03_sound_leaf_vs_composite.
 Print Assumptions C03_sound_arguments.
